@@ -1,5 +1,7 @@
 from ..framework import Spec
-from ..ties_sys import sys_tie, paste_oracle
+from ..ties_sys import sys_tie, paste_oracle, scenario_tie
+from ..scenarios import gen_include_scenario
 
 SPEC = Spec(pid='C17', coq_needs=['Base', 'Program', 'ProgramProofs', 'ReaderProofs', 'Properties/C17'],
-            ties=[sys_tie('C17', n_quick=350)], oracles=[paste_oracle()])
+            ties=[sys_tie('C17', n_quick=350), scenario_tie('include_trees', gen_include_scenario, 200, 3000)],
+            oracles=[paste_oracle()])
